@@ -56,7 +56,7 @@ def image_rows(s):
     for p in s:
         if p.bounds != bounds:
             raise ValueError("patterns of one schedule disagree on the bounds")
-        cols.append(p.pattern.eval(pts).reshape(len(pts), -1))
+        cols.append(p.pattern.eval(pts).reshape(len(pts), p.pattern.A.shape[0]))
     return np.concatenate(cols, axis=1) if cols else np.zeros((len(pts), 0), dtype=np.int64)
 
 
@@ -127,6 +127,175 @@ def strip_msg(x):
     if isinstance(x, list):
         return [strip_msg(v) for v in x]
     return x
+
+
+def image_of_json(j):
+    """Operand-index tuples of (bounds, [A, b]) computed with numpy only (no snaxc code): array (volume, results).
+    A bound <= 0 means no iterations."""
+    bounds = [max(int(b), 0) for b in j["bounds"]]
+    n = len(bounds)
+    pts = np.array(list(itertools.product(*[range(b) for b in bounds])), dtype=np.int64).reshape(vol(bounds), n)
+    cols = []
+    for o in j["ops"]:
+        A = np.array(o["A"], dtype=np.int64).reshape(len(o["A"]), n)
+        cols.append(pts @ A.T + np.array(o["b"], dtype=np.int64).reshape(1, len(o["A"])))
+    return np.concatenate(cols, axis=1) if cols else np.zeros((len(pts), 0), dtype=np.int64)
+
+
+# ------------------------------------------------------------------------------------------------
+# the real `dart-scheduler` pass on modules with several operations (history inside one pass run)
+# ------------------------------------------------------------------------------------------------
+ELEM = {"i8": 1, "i32": 4, "i64": 8}
+ACC_TYPES = {"snax_alu": ["i64", "i64", "i64"], "snax_gemmx": ["i8", "i8", "i32"]}
+_TEMPLATES = {}
+
+
+def perm_rows(perm, n):
+    return [[1 if c == p else 0 for c in range(n)] for p in perm]
+
+
+def pass_op_sched(op):
+    """the operation's own access patterns as a schedule JSON (from the case data only)"""
+    n = len(op["bounds"])
+    return {"bounds": list(op["bounds"]), "ops": [{"A": perm_rows(pm, n), "b": [0] * len(pm)} for pm in op["maps"]]}
+
+
+def render_pass_module(case):
+    acc = case["acc"]
+    tys = ACC_TYPES[acc]
+    args, body = [], []
+    for i, op in enumerate(case["ops"]):
+        n = len(op["bounds"])
+        dims = ", ".join(f"d{k}" for k in range(n))
+        maps = ", ".join(f"affine_map<({dims}) -> ({', '.join('d%d' % p for p in pm)})>" for pm in op["maps"])
+        mts = ["memref<" + "".join(f"{op['bounds'][p]}x" for p in pm) + ty + ">" for pm, ty in zip(op["maps"], tys)]
+        args += [f"%t{i}_{k} : {mt}" for k, mt in enumerate(mts)]
+        operands = ", ".join(f"%t{i}_{k}" for k in range(3))
+        st = [f"!dart.stream<{ty}>" for ty in tys]
+        if acc == "snax_alu":
+            inner = (f'    %r{i} = "dart.generic"(%s{i}_0, %s{i}_1) <{{library_call = "snax_alu"}}> ({{\n'
+                     f"    ^bb1(%x{i} : i64, %y{i} : i64, %z{i} : i64):\n"
+                     f"      %w{i} = kernel.add %x{i}, %y{i} : i64, i64 -> i64\n      dart.yield %w{i} : i64\n"
+                     f"    }}) : ({st[0]}, {st[1]}) -> {st[2]}\n")
+        else:
+            inner = (f'    %r{i} = "dart.generic"(%s{i}_0, %s{i}_1, %c0, %c0) <{{library_call = "snax_gemmx"}}> ({{\n'
+                     f"    ^bb1(%x{i} : i8, %y{i} : i8, %p{i} : i32, %q{i} : i32, %z{i} : i32):\n"
+                     f"      %w{i} = kernel.qmac %x{i}, %y{i} zp_lhs : %p{i} zp_rhs : %q{i} : i8, i8, i32, i32 -> i32\n"
+                     f"      dart.yield %w{i} : i32\n"
+                     f"    }}) : ({st[0]}, {st[1]}, i32, i32) -> {st[2]}\n")
+        body.append(f'  "dart.operation"({operands}) <{{patterns = [{maps}], accelerator = "{acc}", '
+                    f"operandSegmentSizes = array<i32: 2, 1>}}> ({{\n"
+                    f"  ^bb0(%s{i}_0 : {st[0]}, %s{i}_1 : {st[1]}, %s{i}_2 : {st[2]}):\n" + inner +
+                    f"    dart.yield %r{i} : {st[2]}\n  }}) : ({', '.join(mts)}) -> ()\n")
+    return (f"func.func public @f({', '.join(args)}) {{\n  %c0 = arith.constant 0 : i32\n" + "".join(body)
+            + "  func.return\n}\n")
+
+
+def pass_name(acc):
+    return "insert-accfg-op{accelerator=%s},dart-scheduler" % acc
+
+
+def map_to_json(m):
+    """(A, b) of an xDSL AffineMap from its values on the origin and the unit vectors."""
+    n = m.num_dims
+    b = [int(v) for v in m.eval([0] * n, [])]
+    cols = [[int(v) - c for v, c in zip(m.eval([1 if k == d else 0 for k in range(n)], []), b)] for d in range(n)]
+    return {"A": [[cols[d][r] for d in range(n)] for r in range(len(b))], "b": b}
+
+
+def run_pass_case(case):
+    import snaxrun
+    from snaxc.dialects import dart
+    out = snaxrun.run_passes(render_pass_module(case), pass_name(case["acc"]))
+    res = []
+    for op in snaxrun.parse(out).walk():
+        if isinstance(op, dart.ScheduleOp):
+            res.append({"bounds": [int(b.value.data) for b in op.bounds], "ops": [map_to_json(pm.data) for pm in op.patterns]})
+        elif isinstance(op, dart.OperationOp):
+            res.append({"unscheduled": True})
+    return res
+
+
+def template_of(case):
+    """the accelerator template, computed by the real helper and shipped to the model as data"""
+    acc = case["acc"]
+    if acc not in _TEMPLATES:
+        import snaxrun
+        from snaxc.dialects import dart
+        from snaxc.tools.snax_opt_main import SNAXOptMain
+        one = dict(case, ops=case["ops"][:1])
+        ctx = SNAXOptMain(args=["/dev/null", "--allow-unregistered-dialect"]).ctx
+        from xdsl.parser import Parser
+        mod = Parser(ctx, render_pass_module(one)).parse_module()
+        op = next(o for o in mod.walk() if isinstance(o, dart.OperationOp))
+        t = ctx.get_acc(acc).get_template(op)
+        _TEMPLATES[acc] = {"bounds": [None if b is None else int(b) for b in t[0].bounds],
+                           "ops": [{"A": [[int(x) for x in row] for row in p.pattern.A.tolist()],
+                                    "b": [int(x) for x in p.pattern.b.tolist()]} for p in t]}
+    return _TEMPLATES[acc]
+
+
+def gen_pass_case(rng):
+    acc = "snax_alu" if rng.random() < 0.8 else "snax_gemmx"
+    nops = rng.choice([1, 2, 2, 2, 3, 3])
+    ops = []
+    if acc == "snax_alu":
+        n = rng.choice([1, 2, 2, 2, 3])
+        ident = list(range(n))
+
+        def rperm():
+            p = list(ident)
+            if rng.random() < 0.3:
+                rng.shuffle(p)
+            return p
+        maps = [rperm(), rperm(), rperm()]
+        base = [rng.choice([1, 1, 4, 8, 16, 16, 32, 2, 3, 6]) for _ in range(n)]
+        if n >= 2 and rng.random() < 0.6:
+            base[rng.randrange(n)] = 1                      # a unit dim somewhere
+        for i in range(nops):
+            u = rng.random()
+            if i == 0 or u < 0.15:
+                b = list(base)                               # identical operation
+            elif u < 0.65:
+                b = list(base)
+                rng.shuffle(b)                               # same extents, unit dim (if any) elsewhere
+            elif u < 0.8:
+                b = [rng.choice([1, 4, 8, 16, 32]) for _ in range(n)]
+            else:
+                b = list(base)
+                k = rng.randrange(n)
+                b[k] = rng.choice([1, 4, 8, 16])
+            m = maps if rng.random() < 0.85 else [rperm(), rperm(), rperm()]
+            ops.append({"bounds": b, "maps": [list(x) for x in m]})
+    else:
+        for i in range(nops):
+            order = [0, 1, 2]
+            if rng.random() < 0.3:
+                rng.shuffle(order)                           # which iteration dim plays m, n, k
+            m_, n_, k_ = order
+            b = [0, 0, 0]
+            for d in order:
+                b[d] = rng.choice([8, 8, 16, 16, 24, 32]) if rng.random() < 0.93 else rng.choice([1, 12])
+            ops.append({"bounds": b, "maps": [[m_, k_], [k_, n_], [m_, n_]]})
+    if rng.random() < 0.3:
+        rng.shuffle(ops)
+    return {"kind": "pass", "acc": acc, "ops": ops}
+
+
+# ------------------------------------------------------------------------------------------------
+# malformed stream: what the constructor must reject (and what happens when it does not)
+# ------------------------------------------------------------------------------------------------
+def gen_construct_case(rng):
+    t, s = gen_matching_pair(rng, "quick")
+    n = len(s["bounds"])
+    u = rng.random()
+    if n and u < 0.75:
+        for _ in range(rng.choice([1, 1, 2])):
+            s["bounds"][rng.randrange(n)] = rng.choice([0, 0, 0, -1, -5])
+    d_tile = rng.randrange(max(n, 1))
+    b = s["bounds"][d_tile] if d_tile < n else 1
+    return {"kind": "construct", "t": t, "s": s, "d_rot": rng.randint(1, max(n, 1)), "d_tile": d_tile,
+            "tf": rng.choice([1, 2, 3, 4, max(abs(b), 1)])}
 
 
 # ------------------------------------------------------------------------------------------------
@@ -314,6 +483,10 @@ class SchedProp(Prop):
             return out
         if kind == "backtrack":
             return {"results": [of_sched(r) for r in run_backtrack(case)]}
+        if kind == "construct":
+            return {"accepted": of_sched(mk_sched(case["s"]))}      # ValueError = rejected
+        if kind == "pass":
+            return {"schedules": run_pass_case(case)}
         if kind == "match":
             return {"matches": bool(mk_tmpl(case["t"]).matches(mk_sched(case["s"])))}
         if kind == "check":
@@ -338,6 +511,12 @@ class SchedProp(Prop):
         if kind == "backtrack":
             return [{"fn": "c03.backtrack", "args": {"t": case["t"], "s": case["s"], "k": case["k"],
                                                       "checks": case["checks"], "fuel": FUEL}}]
+        if kind == "construct":
+            return [{"fn": "c03.construct", "args": {"bounds": case["s"]["bounds"], "ops": case["s"]["ops"]}}]
+        if kind == "pass":
+            sizes = [ELEM[ty] for ty in ACC_TYPES[case["acc"]]]
+            return [{"fn": "c03.autoflow", "args": {"t": template_of(case), "s": pass_op_sched(op), "sizes": sizes,
+                                                     "fuel": FUEL}} for op in case["ops"]]
         if kind == "match":
             return [{"fn": "c16.matches", "args": {"t": case["t"], "s": case["s"]}}]
         if kind == "check":
@@ -354,6 +533,14 @@ class SchedProp(Prop):
         vals = [a["ok"] for a in answers]
         if kind == "xform":
             return dict(zip(["rotate", "tile", "add_dim", "clear", "canon", "inner", "image"], vals))
+        if kind == "construct":
+            return vals[0]
+        if kind == "pass":
+            # every operation is scheduled on its own; an operation without any schedule makes the pass raise
+            for v in vals:
+                if isinstance(v, dict) and "raised" in v:
+                    return v
+            return {"schedules": vals}
         key = {"backtrack": "results", "match": "matches", "check": "holds", "ocs": "holds"}[kind]
         v = vals[0]
         if isinstance(v, dict) and "raised" in v:
@@ -364,6 +551,8 @@ class SchedProp(Prop):
         k = case["kind"]
         if isinstance(impl_out, dict) and "raised" in impl_out:
             return f"{k}:raised:{impl_out['raised']}"
+        if k == "pass":
+            return f"pass:{case['acc']}:{len(case['ops'])} ops"
         if k == "backtrack":
             n = len(impl_out["results"])
             return f"backtrack:{'0' if n == 0 else '1' if n == 1 else '2-9' if n < 10 else '10+'} results"
@@ -371,6 +560,18 @@ class SchedProp(Prop):
 
     # shrinking -------------------------------------------------------------------------------
     def shrink(self, case):
+        if case.get("kind") == "pass":
+            ops = case["ops"]
+            for i in range(len(ops)):
+                if len(ops) > 1:
+                    yield dict(case, ops=ops[:i] + ops[i + 1:])
+            for i, op in enumerate(ops):
+                for k, b in enumerate(op["bounds"]):
+                    for nb in (4, b // 2):
+                        if 1 < nb < b:
+                            nop = dict(op, bounds=op["bounds"][:k] + [nb] + op["bounds"][k + 1:])
+                            yield dict(case, ops=ops[:i] + [nop] + ops[i + 1:])
+            return
         if "s" not in case:
             return
         s = case["s"]
@@ -435,6 +636,10 @@ class C03(SchedProp):
             yield gen_xform_case(rng)
         for _ in range(nb):
             yield gen_backtrack_case(rng, tier)
+        for _ in range(150 if tier == "quick" else 3000):
+            yield gen_construct_case(rng)
+        for _ in range(120 if tier == "quick" else 2500):
+            yield gen_pass_case(rng)
         if tier == "thorough":
             yield from exhaustive_small_space()
 
@@ -443,6 +648,8 @@ class C03(SchedProp):
         for _ in range(2500 if tier == "quick" else 60000):
             yield gen_xform_case(rng)
             yield gen_backtrack_case(rng, "thorough")
+            yield gen_construct_case(rng)
+            yield gen_pass_case(rng)
 
     def oracle(self, case, impl_out):
         """The property on the real objects: same multiset of operand-index tuples (numpy enumeration)."""
@@ -474,6 +681,63 @@ class C03(SchedProp):
             chk("add_dim()", lambda: s.add_dim())
             chk("clear_unused_dims()", lambda: s.clear_unused_dims())
             chk("canonicalize()", lambda: s.canonicalize())
+        elif kind == "construct":
+            # whatever the real constructor ACCEPTS must be handled correctly by everything downstream
+            try:
+                s = mk_sched(case["s"])
+            except ValueError:
+                return out          # rejected: nothing is produced, nothing can be wrong
+            sj = case["s"]
+            base = image_of_json(sj)
+            n = len(sj["bounds"])
+            d, dt, t = case["d_rot"], case["d_tile"], case["tf"]
+
+            def chk(name, f):
+                try:
+                    r = f()
+                    rows = image_rows(r)
+                except Exception as e:
+                    out.append({"what": f"constructor accepted bounds {sj['bounds']} but {name} raised {type(e).__name__}",
+                                "finding": None})
+                    return None
+                if not same_multiset(rows, base):
+                    out.append({"what": f"constructor accepted bounds {sj['bounds']} ({len(base)} iterations) and {name} "
+                                        f"yields bounds {list(r[0].bounds)} with {len(rows)} iterations / other operand-index tuples",
+                                "finding": None})
+                return r
+            if 1 <= d <= n:
+                chk(f"rotate({d})", lambda: s.rotate(d))
+            if dt < n and t > 0 and sj["bounds"][dt] % t == 0:
+                chk(f"tile_dim({dt},{t})", lambda: s.tile_dim(dt, t))
+            chk("add_dim()", lambda: s.add_dim())
+            chk("clear_unused_dims()", lambda: s.clear_unused_dims())
+            c = chk("canonicalize()", lambda: s.canonicalize())
+            if c is not None and not out:
+                from snaxc.ir.dart.scheduler import scheduler_backtrack
+                try:
+                    for i, r in enumerate(itertools.islice(scheduler_backtrack(mk_tmpl(case["t"]), c), 50)):
+                        if not same_multiset(image_rows(r), base):
+                            out.append({"what": f"constructor accepted bounds {sj['bounds']} ({len(base)} iterations) and the scheduler "
+                                                f"returns result #{i} with bounds {list(r[0].bounds)} visiting other operand-index tuples",
+                                        "finding": None})
+                            break
+                except Exception:
+                    pass            # exceptions of the search are compared by the backtrack correspondence
+        elif kind == "pass":
+            if "raised" in impl_out:
+                return out          # no schedule exists for some operation: nothing was emitted
+            scheds = impl_out["schedules"]
+            if len(scheds) != len(case["ops"]):
+                return [{"what": f"{len(case['ops'])} operations but {len(scheds)} ops after dart-scheduler", "finding": None}]
+            for i, (op, sj) in enumerate(zip(case["ops"], scheds)):
+                if "unscheduled" in sj:
+                    out.append({"what": f"operation #{i} was left unscheduled", "finding": None})
+                    continue
+                own = pass_op_sched(op)
+                if not same_multiset(image_of_json(sj), image_of_json(own)):
+                    out.append({"what": f"dart-scheduler: operation #{i} of {len(scheds)} (bounds {op['bounds']}, maps {op['maps']}) got a "
+                                        f"dart.schedule with bounds {sj['bounds']}, first map A={sj['ops'][0]['A']} that visits a different "
+                                        f"multiset of operand-index tuples than the operation's own access patterns", "finding": None})
         elif kind == "backtrack":
             if "raised" in impl_out:
                 return out
@@ -489,6 +753,10 @@ class C03(SchedProp):
         return out
 
     def nontrivial(self, case, impl_out):
+        if case["kind"] == "pass":
+            return "schedules" in impl_out and len(case["ops"]) > 1
+        if case["kind"] == "construct":
+            return True
         if case["kind"] == "backtrack":
             return "results" in impl_out and any(r != case["s"] for r in impl_out["results"])
         return True
